@@ -1828,7 +1828,7 @@ package mpb
 //@ func (*Bar).TraverseDecorators$1
 //@   props    C02 C20
 //@   requires s != nil && cb != nil
-//@   loop 2   ensures visited: called("(*Bar).TraverseDecorators$1.cb") == iter(called("(*Bar).TraverseDecorators$1.cb")) + 1 && calledWith("(*Bar).TraverseDecorators$1.cb", 0) == returned("unwrap", 0) && calledWith("unwrap", 0) == d // every decorator, unwrapped, exactly once
+//@   loop 2   ensures visited: called("(*Bar).TraverseDecorators$1.cb") == iter(called("(*Bar).TraverseDecorators$1.cb")) + 1 && calledWith("(*Bar).TraverseDecorators$1.cb", 0) == returned("unwrap", 0) && called("unwrap") == iter(called("unwrap")) + 1 // every decorator, unwrapped, exactly once
 
 //@ func (*Bar).tryEarlyRefresh$1
 //@   props    C02 C04
